@@ -538,6 +538,12 @@ class SArr(numpy.ndarray):
         if dt is not None and dt.kind in "fO":
             return self.copy()
         if dt is not None and dt.kind in "iu":
+            # what an integer cast does to the values: truncation toward zero, kept symbolic
+            if any(is_sym(v) for v in self.ravel()):
+                out = numpy.empty(self.shape, dtype=object)
+                for idx in numpy.ndindex(self.shape):
+                    out[idx] = strunc(self[idx])
+                return out.view(IntArr)
             out = numpy.empty(self.shape, dtype=dt)
             for idx in numpy.ndindex(self.shape):
                 out[idx] = int(self[idx])
@@ -577,6 +583,71 @@ class SArr(numpy.ndarray):
 
     def min(self, axis=None, out=None, keepdims=False, **kw):
         return self._reduce(smin, axis, keepdims)
+
+
+def strunc(x):
+    """C/NumPy float -> int conversion: truncation toward zero (symbolic, no realisation)"""
+    if isinstance(x, SymReal):
+        t = x.t
+        return SymInt(z3.If(t >= 0, z3.ToInt(t), -z3.ToInt(-t)))
+    if isinstance(x, SymInt):
+        return x
+    if isinstance(x, SymBool):
+        return x._asint()
+    return int(x)
+
+
+class IntArr(SArr):
+    """an integer-typed NumPy buffer holding symbolic values: reports an integer dtype to the code
+    under test and truncates what is stored into it (what `numpy.empty(..., dtype=int64)[i] = 0.7` does)"""
+
+    @property
+    def dtype(self):
+        return numpy.dtype("int64")
+
+    def __setitem__(self, k, v):
+        if isinstance(v, numpy.ndarray):
+            vv = numpy.empty(v.shape, dtype=object)
+            for i in numpy.ndindex(v.shape):
+                vv[i] = strunc(v[i])
+            v = vv
+        else:
+            v = strunc(v)
+        numpy.ndarray.__setitem__(self, k, v)
+
+
+def int_array(data):
+    """caller data of integer dtype (values may be symbolic ints)"""
+    a = numpy.empty(numpy.shape(data), dtype=object)
+    a[...] = data
+    return a.view(IntArr)
+
+
+def typed_empty(shape, dtype=None, fill=None):
+    """numpy.empty/zeros for modules under SX: honours an integer dtype request (truncating buffer)"""
+    a = numpy.empty(shape, dtype=object)
+    if fill is not None:
+        a[...] = fill
+    if dtype is not None and numpy.dtype(dtype).kind in "iu":
+        return a.view(IntArr)
+    return a.view(SArr)
+
+
+class TypedNumpy:
+    """module-global numpy for code under SX whose only need is honest buffers: empty/zeros/ones/full return
+    object arrays, truncating when an integer dtype is requested; everything else is real NumPy"""
+
+    def __getattr__(self, k):
+        return getattr(numpy, k)
+
+    def empty(self, shape, dtype=None, **kw):
+        return typed_empty(shape, dtype)
+
+    def zeros(self, shape, dtype=None, **kw):
+        return typed_empty(shape, dtype, fill=0)
+
+    def ones(self, shape, dtype=None, **kw):
+        return typed_empty(shape, dtype, fill=1)
 
 
 def sarr(data):
@@ -670,6 +741,8 @@ class Engine:
         self.cex = []
         self.stop_on_cex = True
         self.failed_labels = set()
+        self._first_cex_at = None
+        self.grace_after_cex_s = 20.0
         # over-approximations that keep every query linear (sound for proving; counterexamples are replayed):
         self.abstract_squares = False  # x**2 -> fresh s >= 0, order-isomorphic to x on the non-negative bases seen
         self.abstract_division = False  # a/b (symbolic b) -> fresh q with sign/range facts only
@@ -974,6 +1047,13 @@ class Engine:
             self.stats.paths += 1
             if self.cex and self.stop_on_cex:
                 return self.cex
+            if self.cex:
+                # a counterexample exists: keep exploring for other obligations, but not for ever (a broken
+                # tree can blow the path space up); stopping early never hides anything -- the check fails
+                if self._first_cex_at is None:
+                    self._first_cex_at = time.time()
+                elif time.time() - self._first_cex_at > self.grace_after_cex_s:
+                    return self.cex
             if self.stats.paths >= self.max_paths:
                 raise SXError(f"path budget exhausted ({self.max_paths}) in {self.name}")
             tr = list(self.trail)
